@@ -15,6 +15,7 @@ distinct (pointer identity in Go) and (b) mounts of one device agree on classes 
 -/
 import ArvVerif.Proofs.C05Lost
 import ArvVerif.Proofs.C05Setup
+import ArvVerif.Proofs.C05Plan
 import ArvVerif.Proofs.C05Witness
 namespace ArvVerif.C05
 
@@ -348,14 +349,47 @@ theorem C05_trash_safe (hok : BalanceOK env classes sorter mounts reps)
     rw [initSlots_mnt]; exact hid
   exact runClasses_guar env sorter c classes _ hok hid0 hc hd
 
-/-- end to end from the discovered layout: `plan` = cleanupMounts, setupLookupTables, balanceBlock -/
+/-- End to end from the discovered layout (`plan` = cleanupMounts, setupLookupTables,
+balanceBlock), with the hypotheses stated on what the keepstore servers report: the mounts are
+distinct objects and mounts of one device report the same classes and replication. The hypotheses
+of the block-level theorem are derived (`plan_distinctIds`, `plan_deviceConsistent`). -/
 theorem C05_trash_safe_plan (dflt : Class) (svcs : List RawService) (hok : PlanOK env dflt sorter svcs reps)
-    (hid : DistinctIds (effMounts dflt (cleanupMounts svcs)))
-    (hcons : DeviceConsistent (effMounts dflt (cleanupMounts svcs)))
+    (hid : RawDistinctIds svcs) (hcons : RawDeviceConsistent svcs)
     (c : Class) (hc : c ∈ classesOf dflt (cleanupMounts svcs)) (hd : env.desired c ≠ 0) :
     min (env.desired c) (physRepl c (plan env dflt sorter svcs reps).heldBefore) ≤
       physRepl c (plan env dflt sorter svcs reps).heldAfter :=
-  C05_trash_safe env _ sorter _ reps hok hid hcons c hc hd
+  C05_trash_safe env _ sorter _ reps hok (plan_distinctIds dflt svcs hid) (plan_deviceConsistent dflt svcs hcons) c hc hd
+
+/-- the same for the under-replication clause -/
+theorem C05_underreplicated_no_trash_plan (dflt : Class) (svcs : List RawService)
+    (hok : PlanOK env dflt sorter svcs reps) (hid : RawDistinctIds svcs) (hcons : RawDeviceConsistent svcs)
+    (c : Class) (hc : c ∈ classesOf dflt (cleanupMounts svcs)) (hd : env.desired c ≠ 0)
+    (hu : physRepl c (plan env dflt sorter svcs reps).heldBefore < env.desired c) :
+    ∀ p ∈ (plan env dflt sorter svcs reps).changes, ∀ t, p.2 ≠ .trash t :=
+  C05_underreplicated_no_trash env _ sorter _ reps hok (plan_distinctIds dflt svcs hid)
+    (plan_deviceConsistent dflt svcs hcons) c hc hd hu
+
+example : RawDistinctIds rawLayout ∧ RawDeviceConsistent rawLayout := by
+  refine ⟨by unfold RawDistinctIds; decide, by unfold RawDeviceConsistent; decide⟩
+
+/-- Device consistency cannot be dropped: "replication of class c over distinct physical devices"
+has no meaning when two servers report one device in different classes. Device 7 is in class 0
+according to server 0 and in class 1 according to server 1; class 0 desired 1: the replica on
+device 8 is trashed, and the surviving device 7 counts for class 0 or not depending on the view. -/
+theorem C05_trash_safe_needs_device_consistency :
+    ¬ (∀ (env : Env) (classes : List Class) (sorter : Class → List Slot → List Slot) (mounts : List Mount)
+        (reps : List Replica), BalanceOK env classes sorter mounts reps → DistinctIds mounts →
+        ∀ c ∈ classes, env.desired c ≠ 0 →
+          min (env.desired c) (physRepl c (balanceBlock env classes sorter mounts reps).heldBefore) ≤
+            physRepl c (balanceBlock env classes sorter mounts reps).heldAfter) := by
+  intro h
+  have := h ncEnv [0, 1] (wSorter ncEnv) ncMounts ncReps
+    (by unfold BalanceOK; simp only [RunOK]; decide) (by unfold DistinctIds; decide) 0 (by decide) (by decide)
+  have e1 : physRepl 0 (balanceBlock ncEnv [0, 1] (wSorter ncEnv) ncMounts ncReps).heldBefore = 1 := by decide
+  have e2 : physRepl 0 (balanceBlock ncEnv [0, 1] (wSorter ncEnv) ncMounts ncReps).heldAfter = 0 := by decide
+  rw [e1, e2] at this
+  revert this
+  decide
 
 /-- non-vacuity, and the layouts on which the code failed before the fix: commits:
 F1 (device 7 mounted on two servers; ranks empty, empty, 7, 7, 8-old; desired 2): device 8 is now
